@@ -15,6 +15,16 @@
 //!        (the direct path read_block_into_buf), which must end with Ok(0) also when the stream
 //!        has no trailing EOF marker; obs as for rd
 //!
+//!   st  payload                        zlib-rs (flate2, the parameters noodles uses) level-0 deflate of
+//!        an input of any length, compared with the model's concrete `deflate_stored`: obs = stream hex
+//!   inf cdata limit                    zlib-rs inflate (raw, window 15, Finish, the call of
+//!        deflate.rs::decode) of arbitrary / damaged CDATA into a buffer of `limit` bytes, compared with the
+//!        model's RFC 1951 inflater: obs = Ok:<out hex>:<unconsumed input bytes> | Err
+//!
+//! The model's reader uses its own (Gallina, extracted) inflater for every frame of every wr / rd /
+//! rdbig case; level-0 CDATA are produced by the model's own `deflate_stored`.  The table only
+//! carries what zlib-rs produced at levels 1..9.
+//!
 //! The verdict column (L3) is independent of the model: the sink is parsed by the from-scratch
 //! gzip walker of shared/c01_gz.rs (own inflater, own CRC-32), compared with the accepted bytes,
 //! cross-checked with flate2, and read back through the real reader in four different ways.
@@ -273,6 +283,39 @@ fn flate2_inflate(cdata: &[u8]) -> Option<Vec<u8>> {
     }
 }
 
+/// RFC 1951 stored blocks as zlib emits them at level 0 when the whole input is available:
+/// 65535-byte blocks, BFINAL on the last (an empty input is one empty final block)
+fn stored_stream(data: &[u8]) -> Vec<u8> {
+    let mut out = Vec::with_capacity(data.len() + 5 * (data.len() / 65535 + 1));
+    let mut rest = data;
+    loop {
+        let n = rest.len().min(65535);
+        let last = n == rest.len();
+        out.push(last as u8);
+        out.extend((n as u16).to_le_bytes());
+        out.extend((!(n as u16)).to_le_bytes());
+        out.extend_from_slice(&rest[..n]);
+        rest = &rest[n..];
+        if last {
+            return out;
+        }
+    }
+}
+
+/// zlib-rs inflate exactly as deflate.rs::decode calls it (raw stream, window 15, Finish, a
+/// destination of `limit` bytes): Some((output, unconsumed input bytes)) iff StreamEnd
+fn zlibrs_inflate_into(cdata: &[u8], limit: usize) -> Option<(Vec<u8>, usize)> {
+    let mut d = flate2::Decompress::new(false);
+    let mut out = vec![0u8; limit];
+    match d.decompress(cdata, &mut out, flate2::FlushDecompress::Finish) {
+        Ok(flate2::Status::StreamEnd) => {
+            out.truncate(d.total_out() as usize);
+            Some((out, cdata.len() - d.total_in() as usize))
+        }
+        _ => None,
+    }
+}
+
 /// (level, block, cdata)
 type Table = Vec<(u8, Vec<u8>, Vec<u8>)>;
 
@@ -294,11 +337,12 @@ fn raw_frames(sink: &[u8]) -> Option<Vec<&[u8]>> {
     Some(v)
 }
 
-/// The DEFLATE oracle for the model.  Block boundaries are taken from the sink the implementation
-/// produced; the compressed bytes are NOT: they are recomputed with flate2 (zlib-rs back end, the
-/// same library and parameters noodles uses), at the requested level and -- when that attempt is
-/// longer than 65510 bytes -- at level 0, so that the model has to take the fallback decision
-/// itself and a wrong decision of the implementation shows up as a different sink.
+/// The DEFLATE oracle for the model (levels 1..9 only).  Block boundaries are taken from the sink
+/// the implementation produced; the compressed bytes are NOT: they are recomputed with flate2
+/// (zlib-rs back end, the same library and parameters noodles uses) at the requested level.  When
+/// that attempt is longer than 65510 bytes the model has to take the fallback decision itself and
+/// to produce the level-0 stream itself (NV.Bgzf.Inflate.deflate_stored), so a wrong decision of the
+/// implementation, or a level-0 stream that is not one stored block, shows up as a different sink.
 fn build_table(level: u8, sink: &[u8]) -> Table {
     let mut t: Table = Vec::new();
     let Some(frames) = raw_frames(sink) else { return t };
@@ -308,10 +352,12 @@ fn build_table(level: u8, sink: &[u8]) -> Table {
         if block.is_empty() || t.iter().any(|(_, b, _)| *b == block) {
             continue;
         }
-        let attempt = flate2_deflate(level, &block);
-        if attempt.len() > MAX_CDATA && level != 0 {
-            t.push((0, block.clone(), flate2_deflate(0, &block)));
+        if level == 0 {
+            // level 0 is the model's own deflate_stored: nothing to hand over
+            continue;
         }
+        // (when the attempt is longer than 65510 bytes the model falls back to its own level 0)
+        let attempt = flate2_deflate(level, &block);
         t.push((level, block, attempt));
     }
     t
@@ -546,8 +592,9 @@ fn gen_rd(rng: &mut Rng, w: &mut CaseWriter, n_random: usize) {
     }
     base.extend(gz::EOF_BLOCK);
     table.push((0, vec![], vec![3, 0]));
-    let ts = table_str(&table);
-    let push = |w: &mut CaseWriter, s: &[u8]| w.push("rd", vec![ts.clone(), hex(s)]);
+    // (the model inflates with its own inflater: no oracle table)
+    let _ = &table;
+    let push = |w: &mut CaseWriter, s: &[u8]| w.push("rd", vec!["-".to_string(), hex(s)]);
     push(w, &base);
     push(w, &[]);
     push(w, &gz::EOF_BLOCK);
@@ -609,6 +656,145 @@ fn gen_rd(rng: &mut Rng, w: &mut CaseWriter, n_random: usize) {
     }
 }
 
+/// damage applied to a raw DEFLATE stream
+fn damage_cdata(rng: &mut Rng, cd: &[u8]) -> Vec<u8> {
+    let mut c = cd.to_vec();
+    match rng.below(9) {
+        0 => {}
+        1 | 2 => {
+            // flip one bit (early bits = block headers / code descriptions more often)
+            if !c.is_empty() {
+                let i = if rng.chance(1, 2) { rng.below(c.len().min(24) as u64) } else { rng.below(c.len() as u64) } as usize;
+                c[i] ^= 1 << rng.below(8);
+            }
+        }
+        3 => {
+            let k = rng.range(1, 6) as usize;
+            c.truncate(c.len().saturating_sub(k));
+        }
+        4 => {
+            let k = rng.range(1, 5) as usize;
+            c.extend(rng.bytes(k));
+        }
+        5 => {
+            if !c.is_empty() {
+                let i = rng.below(c.len() as u64) as usize;
+                c[i] = rng.next() as u8;
+            }
+        }
+        6 => {
+            // clear BFINAL of the first block: the stream runs on into whatever follows
+            if !c.is_empty() {
+                c[0] &= !1;
+            }
+            if rng.chance(1, 2) {
+                c.extend([3, 0]);
+            }
+        }
+        7 => {
+            let k = rng.range(1, 40) as usize;
+            c = rng.bytes(k);
+        }
+        _ => {
+            // two streams back to back / an empty stored block in front
+            if rng.chance(1, 2) {
+                let mut d = vec![0, 0, 0, 0xff, 0xff];
+                d.extend_from_slice(&c);
+                c = d;
+            } else {
+                let d = c.clone();
+                c.extend(d);
+            }
+        }
+    }
+    c
+}
+
+fn small_block(rng: &mut Rng) -> (u8, Vec<u8>) {
+    let len = match rng.below(5) {
+        0 => rng.below(4) as usize,
+        1 => rng.range(4, 40) as usize,
+        2 | 3 => rng.range(40, 600) as usize,
+        _ => rng.range(600, 5000) as usize,
+    };
+    let class = rng.below(5);
+    (rng.below(10) as u8, payload(rng, class, len))
+}
+
+/// frames whose CDATA are damaged: the reader model has to inflate (or reject) them with its own
+/// inflater exactly as zlib-rs does inside the real reader
+fn gen_rd_cdata(rng: &mut Rng, w: &mut CaseWriter, n: usize) {
+    for _ in 0..n {
+        let (l, b) = small_block(rng);
+        let cd = damage_cdata(rng, &flate2_deflate(l, &b));
+        if cd.len() > MAX_CDATA {
+            continue;
+        }
+        // the trailer is made consistent with what an independent inflater gets out of the damaged
+        // stream (so that a stream that is still valid is accepted), sometimes off by a little
+        let (mut crc, mut isize) = match gz::inflate_raw(&cd, 65536) {
+            Ok((d, _)) => (gz::crc32(&d), d.len() as u32),
+            Err(_) => (gz::crc32(&b), b.len() as u32),
+        };
+        match rng.below(12) {
+            0 => isize = isize.wrapping_add(1),
+            1 => isize = isize.saturating_sub(1),
+            2 => crc ^= 1 << rng.below(32),
+            _ => {}
+        }
+        let mut s = gz::EOF_BLOCK[..16].to_vec();
+        s.extend(((18 + cd.len() + 8 - 1) as u16).to_le_bytes());
+        s.extend_from_slice(&cd);
+        s.extend(crc.to_le_bytes());
+        s.extend(isize.to_le_bytes());
+        if rng.chance(2, 3) {
+            s.extend(gz::EOF_BLOCK);
+        }
+        w.push("rd", vec!["-".to_string(), hex(&s)]);
+    }
+}
+
+/// the inflater alone on valid and damaged streams, with limits around the real length
+fn gen_inf(rng: &mut Rng, w: &mut CaseWriter, n: usize) {
+    let push = |w: &mut CaseWriter, cd: &[u8], limit: usize| w.push("inf", vec![hex(cd), limit.to_string()]);
+    push(w, &[3, 0], 0);
+    push(w, &[3, 0], 5);
+    push(w, &[], 0);
+    push(w, &[1, 0, 0, 0xff, 0xff], 0);
+    push(w, &[0, 0, 0, 0xff, 0xff, 3, 0], 0);
+    push(w, &[1, 1, 0, 0xfe, 0xff, 65], 1);
+    push(w, &[1, 1, 0, 0xfe, 0xff, 65], 0);
+    push(w, &[1, 1, 0, 0xff, 0xff, 65], 1);
+    push(w, &[7, 0], 4); // reserved block type
+    for _ in 0..n {
+        let (l, b) = small_block(rng);
+        let cd = damage_cdata(rng, &flate2_deflate(l, &b));
+        let limit = match rng.below(6) {
+            0 => b.len().saturating_sub(1),
+            1 => b.len() + 1,
+            2 => 65536,
+            3 => 2 * b.len() + 7,
+            _ => b.len(),
+        };
+        push(w, &cd, limit);
+    }
+}
+
+/// level-0 deflate of inputs of any length (one stored block per 65535 bytes)
+fn gen_st(rng: &mut Rng, w: &mut CaseWriter, thorough: bool) {
+    let mut lens = vec![0usize, 1, 2, 300, 65494, 65495, 65534, 65535, 65536, 65537, 131069, 131070, 131071];
+    if thorough {
+        lens.extend([131072, 196604, 196605, 196606, 262140, 262141, 300000]);
+        for _ in 0..8 {
+            lens.push(rng.range(0, 200000) as usize);
+        }
+    }
+    for len in lens {
+        let class = *rng.pick(&[0u64, 1, 2]);
+        w.push("st", vec![hex(&payload(rng, class, len))]);
+    }
+}
+
 /// streams built without noodles, with and without a trailing EOF marker, for large-buffer reads
 fn gen_rdbig(rng: &mut Rng, w: &mut CaseWriter, n: usize) {
     for i in 0..n {
@@ -639,7 +825,8 @@ fn gen_rdbig(rng: &mut Rng, w: &mut CaseWriter, n: usize) {
             }
             _ => {}
         }
-        w.push("rdbig", vec![table_str(&table), hex(&s)]);
+        let _ = &table;
+        w.push("rdbig", vec!["-".to_string(), hex(&s)]);
     }
 }
 
@@ -712,7 +899,10 @@ fn generate(rng: &mut Rng, tier: &str, w: &mut CaseWriter) {
     }
     // --- reader on damaged streams
     gen_rd(rng, w, 60 * mul as usize);
+    gen_rd_cdata(rng, w, 200 * mul as usize);
     gen_rdbig(rng, w, 30 * mul as usize);
+    gen_inf(rng, w, 200 * mul as usize);
+    gen_st(rng, w, thorough);
 }
 
 // -------------------------------------------------------------------------------------------
@@ -790,15 +980,24 @@ fn run_wr(c: &Case) -> Obs {
                 }
             }
         }
+        // level 0 (requested, or the fallback for an attempt > 65510 bytes) is exactly one final
+        // stored block: the concrete codec of the unconditional theorems is what zlib-rs emits
+        for m in &members {
+            if m.data.is_empty() {
+                continue;
+            }
+            let fell_back = level != 0 && table.iter().any(|(_, b, cd)| *b == m.data && cd.len() > MAX_CDATA);
+            if (level == 0 || fell_back) && m.cdata != stored_stream(&m.data) {
+                return Err(("level0-not-stored".into(), format!("level-0 CDATA of a {}-byte block at member offset {} is not a single stored block; {}", m.data.len(), m.offset, class())));
+            }
+        }
         // the oracle table handed to the model satisfies the hypotheses of the theorems
         for (l, b, cd) in &table {
             match gz::inflate_raw(cd, 1 << 17) {
                 Ok((d, used)) if d == *b && used == cd.len() => {}
                 _ => return Err(("oracle-hyp-rt".into(), format!("table entry level {l} len {} does not inflate to its block", b.len()))),
             }
-            if *l == 0 && cd.len() > b.len() + 15 {
-                return Err(("oracle-hyp-l0".into(), format!("level-0 deflate of {} bytes is {} bytes", b.len(), cd.len())));
-            }
+            let _ = l;
         }
         Ok(n_data)
     })();
@@ -843,9 +1042,47 @@ fn run_rdbig(c: &Case) -> Obs {
     }
 }
 
+fn run_st(c: &Case) -> Obs {
+    let x = c.b(0);
+    let cd = flate2_deflate(0, &x);
+    let obs = hex(&cd);
+    // L3: the stream is what RFC 1951 stored blocks look like and inflates back (independent inflater)
+    match gz::inflate_raw(&cd, x.len() + 1) {
+        Ok((d, used)) if d == x && used == cd.len() => {}
+        _ => return Obs::fail(obs, "level0-roundtrip", format!("level-0 stream of a {}-byte input does not inflate back", x.len())),
+    }
+    if cd != stored_stream(&x) {
+        return Obs::fail(obs, "level0-not-stored", format!("level-0 stream of a {}-byte input is not 65535-byte stored blocks", x.len()));
+    }
+    Obs::ok(obs, false)
+}
+
+fn run_inf(c: &Case) -> Obs {
+    let cd = c.b(0);
+    let limit: usize = c.args[1].parse().unwrap();
+    let r = guarded(AssertUnwindSafe(|| zlibrs_inflate_into(&cd, limit)));
+    match r {
+        Outcome::Done(Some((out, rest))) => {
+            let obs = format!("Ok:{}:{}", hex(&out), rest);
+            // second opinion: the from-scratch inflater agrees on the output and the consumed bytes
+            match gz::inflate_raw(&cd, limit) {
+                Ok((d, used)) if d == out && used == cd.len() - rest => Obs::ok(obs, false),
+                _ => Obs::fail(obs, "inflate-disagree", format!("zlib-rs accepts a {}-byte stream (limit {limit}) the independent inflater reads differently", cd.len())),
+            }
+        }
+        Outcome::Done(None) => match gz::inflate_raw(&cd, limit) {
+            Err(_) => Obs::ok("Err", false),
+            Ok(_) => Obs::fail("Err", "inflate-disagree", format!("zlib-rs rejects a {}-byte stream (limit {limit}) the independent inflater accepts", cd.len())),
+        },
+        Outcome::Panicked(m) => Obs::fail("Panic", "inflate-panic", m),
+    }
+}
+
 fn run(c: &Case) -> Obs {
     match c.kind.as_str() {
         "wr" => run_wr(c),
+        "st" => run_st(c),
+        "inf" => run_inf(c),
         "rd" => run_rd(c),
         "rdbig" => run_rdbig(c),
         _ => Obs {
